@@ -20,3 +20,66 @@ def install_rng(eng):
         e.rng_draws.append((u, lo, hi))
         return [(st, F(u))]
     eng.model(r'as rand::Rng>::(gen_range|random_range)$', gen_range)
+
+# ------------------------------------------------------------------------------------------------
+class DynKin(Opaque):
+    """an arbitrary implementation of the Kinematics trait: every method returns fresh symbols, every call is logged"""
+    def __init__(s, name, nsol=2, cons_ref=None):
+        super().__init__('dynkin', name); s.nsol = nsol; s.cons_ref = cons_ref
+
+def fresh_iso(eng, tag):
+    from .models_na import Mat, Iso
+    n = next(_ctr)
+    R = Mat(3, 3, [F(z3.Real(f'{tag}{n}_r{i}{k}')) for i in range(3) for k in range(3)], 'rot')
+    t = Mat(3, 1, [F(z3.Real(f'{tag}{n}_t{i}')) for i in range(3)])
+    return Iso(R, t)
+import itertools
+_ctr = itertools.count()
+
+def install_dynkin(eng):
+    """dispatch of <dyn Kinematics as Kinematics>::method: oracle objects answer nondeterministically, crate structs by their impl"""
+    from .symex import Inconclusive
+    eng.kin_calls = []
+    def h(e, st, fr, f, a, m):
+        meth = m.group(1)
+        obj = e.deref(st, a[0])
+        if isinstance(obj, DynKin):
+            n = next(_ctr)
+            args = [e.deref(st, x) if isinstance(x, RefV) else x for x in a[1:]]
+            if meth == 'forward': res = fresh_iso(e, f'{obj.name}_fwd')
+            elif meth == 'forward_with_joint_poses': res = Agg([fresh_iso(e, f'{obj.name}_link{i}_') for i in range(6)])
+            elif meth in ('inverse', 'inverse_continuing', 'inverse_5dof', 'inverse_continuing_5dof'):
+                res = VecV.dense([Agg([F(z3.Real(f'{obj.name}_{meth}{n}_s{k}_j{i}')) for i in range(6)]) for k in range(obj.nsol)])
+            elif meth == 'kinematic_singularity':
+                b = z3.Bool(f'{obj.name}_sing{n}'); res = Enum(z3.If(b, 1, 0), [Enum(0, [], 'Singularity')], 'Option')
+            elif meth == 'constraints':
+                if obj.cons_ref is None: raise Inconclusive('oracle robot without a constraints cell')
+                res = obj.cons_ref
+            else: raise Inconclusive('Kinematics method ' + meth)
+            rec = dict(obj=obj.name, method=meth, args=args, result=res, seq=n)
+            e.kin_calls.append(rec); e.log(st, rec)
+            return [(st, res)]
+        tag = getattr(obj, 'tag', None)
+        if tag:
+            ty = tag.split('::')[-1]
+            for k, v in e.alias.items():
+                if isinstance(k, tuple) and k[1] == 'Kinematics' and k[2] == meth and k[0].split('::')[-1] == ty:
+                    e.inlined_fns[v] = e.inlined_fns.get(v, 0) + 1
+                    return e.call_body(st, e.bodies[v], a)
+        raise Inconclusive(f'dyn Kinematics::{meth} on {type(obj).__name__} {tag}')
+    eng.model(r'^<dyn (?:\w+::)*Kinematics as (?:\w+::)*Kinematics>::(\w+)$', h, front=True)
+
+def euler_iso(eng, tag):
+    """an arbitrary rigid motion: Rz(alpha) Ry(beta) Rz(gamma) (onto SO(3)) and a free translation; returns (Iso, pairs, tvars)"""
+    from .models_na import Mat, Iso
+    prs = []
+    for nm in ('a', 'b', 'g'):
+        s_, c_ = z3.Real(f'{tag}_s{nm}'), z3.Real(f'{tag}_c{nm}'); eng.side.append(s_ * s_ + c_ * c_ == 1); prs.append((s_, c_))
+    (sa, ca), (sb, cb), (sg, cg) = prs
+    def Rz(s, c): return [[c, -s, 0], [s, c, 0], [0, 0, 1]]
+    def Ry(s, c): return [[c, 0, s], [0, 1, 0], [-s, 0, c]]
+    def mm(A, B): return [[sum(A[i][k] * B[k][j] for k in range(3)) for j in range(3)] for i in range(3)]
+    Rm = mm(mm(Rz(sa, ca), Ry(sb, cb)), Rz(sg, cg))
+    tv = [z3.Real(f'{tag}_t{i}') for i in range(3)]
+    iso = Iso(Mat(3, 3, [F(z3.simplify(Rm[i][k])) for i in range(3) for k in range(3)], 'rot'), Mat(3, 1, [F(v) for v in tv]))
+    return iso, prs, tv
